@@ -6,8 +6,9 @@
    time it is called — whatever its occurrence count so far) and every program / arguments / messages:
    the enclosing operation returns normally (no exception reaches the loop or the caller of step()), the process is
    EXCEPTED with exactly e, its future raises e, it is closed, stepping has ended. *)
-From Coq Require Import List String Bool.
+From Coq Require Import List String Bool ZArith.
 From Plumpy Require Import Val Mon PortModel Model Run LifeSx LifeBook LifeFault LifeFault2 LifeFault3 LifeFault4 LifeFault5 LifeFault6.
+From Plumpy Require LifeEsc.
 Import ListNotations.
 Local Open Scope string_scope.
 
@@ -75,6 +76,50 @@ Theorem C03_listener_exception_is_swallowed :
   forall rec_ctl, (forall c, keeps (rec_ctl c)) -> forall name, total (fire rec_ctl name).
 Proof. exact fire_total. Qed.
 Print Assumptions C03_listener_exception_is_swallowed.
+
+(* ------------------------------------------------------------------ over EVERY run (Life/LifeEsc.v) *)
+(* any program, any listener scripts (with re-entrant control calls), any scheduled callbacks, ANY injected fault (any hook
+   name, any occurrence index, any exception) and any schedule of environment events that does not cancel the process
+   future from outside (that interplay is the recorded finding D3b of C04): no exception ever reaches the event loop — no
+   loop error is reported by a callback or a done-callback and the stepping task never fails — unless the explicit fuel
+   of the model ran out *)
+Theorem C03_nothing_reaches_the_loop :
+  forall c es w e,
+    run c es = Some w -> ~ In ECancelFuture es ->
+    (In (EvLoopError e) (trace w) \/ t0 w = PcFailed e) -> e = EOutOfFuel.
+Proof. exact LifeEsc.nothing_escapes. Qed.
+Print Assumptions C03_nothing_reaches_the_loop.
+
+(* never stuck between states, in every such run: between any two environment events no transition is under way, the
+   failure bypass of the exit phase is not armed, a closed process has terminated, the future of a live process is still
+   pending and an armed interrupt action is pending *)
+Theorem C03_never_half_transitioned :
+  forall c es w,
+    run c es = Some w -> ~ In ECancelFuture es ->
+    transitioning w = false /\ transition_failing w = false /\ (closed w = true -> is_terminated w = true)
+    /\ (is_terminated w = false -> pfut w = PfPending) /\ (forall a, intr w = Some a -> LifeEsc.pend w a).
+Proof. exact LifeEsc.never_half_transitioned. Qed.
+Print Assumptions C03_never_half_transitioned.
+
+(* the hypotheses are met by runs in which the injected fault does fire: in an entry hook, in a termination hook after
+   FINISHED had been entered, in the output hook inside a step with a kill pending, in a hook run by a listener's
+   re-entrant kill; each ends EXCEPTED with exactly the injected exception, future raising it, closed, task returned *)
+Example C03_every_run_nonvacuous :
+  let ns := PNs (mk_nattrs true None DNone None true true None) PNil in
+  let boom := EUser "boom" in
+  let obs := fun w => (st w, pfut w, closed w, t0 w, existsb (fun ev => match ev with EvLoopError _ => true | _ => false end) (trace w)) in
+  let expected := Some (Some (SExcepted boom), PfExn boom, true, PcDone, false) in
+  let c1 := mk_config [("run", mk_script [] (RValue (VInt 5%Z)))] [] [] (Some ("on_run", 0, boom)) ns in
+  let c2 := mk_config [("run", mk_script [] (RValue (VInt 5%Z)))] [] [] (Some ("on_terminated", 0, boom)) ns in
+  let c3 := mk_config [("run", mk_script [ACtl (CKill (Some "k")); AOut "x" (VInt 1%Z)] (RValue (VInt 5%Z)))] [] []
+                      (Some ("on_output_emitting", 0, boom)) ns in
+  let c4 := mk_config [("run", mk_script [] (RWait None None VNone))] [] [mk_lscript "on_process_paused" 0 (CKill (Some "k"))]
+                      (Some ("on_kill", 0, boom)) ns in
+  option_map obs (run c1 [EDrain 10]) = expected
+  /\ option_map obs (run c2 [EDrain 10]) = expected
+  /\ option_map obs (run c3 [EDrain 10]) = expected
+  /\ option_map obs (run c4 [EDrain 10; ECtl (CPause None); EDrain 10]) = expected.
+Proof. vm_compute. repeat split; reflexivity. Qed.
 
 (* during construction the exception propagates to the caller: no process exists *)
 Theorem C03_construction_fault_propagates :
